@@ -19,7 +19,7 @@ func init() { register(c05{}) }
 func (c05) ID() string { return "C05" }
 func (c05) Size(tier string) Size {
 	if tier == "thorough" {
-		return Size{Batches: 32, Cases: 2500}
+		return Size{Batches: 32, Cases: 700}
 	}
 	return Size{Batches: 8, Cases: 250}
 }
